@@ -134,6 +134,22 @@ SEEDS = {
     "C19w_B": ("C19", "Element equality and hash reduced to symbol and atomic number", "hydrogen compared with protium (cross-class fallback)"),
     "C20w_A": ("C20", "cell sizes derived with rows and columns swapped (same idea as C20_A, written independently)", "non-square grid"),
     "C20w_B": ("C20", "calculate_admt scales the caller's derivative operators in place (same idea as C20_B, written independently)", "second use of one operators dict"),
+    "C01v_A": ("C01", "BeamAttenuator.plasma setter unsubscribes from the beam's notifier instead of the old plasma's", "beam.atomic_data / beam.plasma re-assigned after the attenuator is attached, evaluate, beam-only change, evaluate"),
+    "C01v_B": ("C01", "Composition.add() notifies only when the (element, charge) key is new (same idea as C05y_A, other property)", "observe, replace a species through composition.add, observe"),
+    "C06v_A": ("C06", "thermal-CX PEC writer opens an existing file 'r+' and never truncates it", "overwrite of a stored transition with a smaller table (shorter JSON)"),
+    "C06v_B": ("C06", "beam-emission writer shares one record dict across the transitions of a batch", "one update_beam_emission_rates call carrying >= 2 transitions of one file"),
+    "C08v_A": ("C08", "install_files routes the 'adf11prc' key to install_adf11prb", "installation through the configuration entry point install_files / populate"),
+    "C08v_B": ("C08", "ADF15 block lookup accepts the first block whose ISEL is >= the requested one", "index table lists a block that is absent from the interior of the data section"),
+    "C10v_A": ("C10", "Cartesian integrator keeps crediting the last active source while the ray is in cells mapped to -1", "mask / voxel map with -1 cells lying between an active cell and the observer"),
+    "C10v_B": ("C10", "cylindrical integrator adds 180 instead of 360 before folding phi into the period", "n_polar > 1 and an odd number of sectors (period 120, 72, 360)"),
+    "C14v_A": ("C14", "Caching2D decides per row, from the top node only, whether the row is already sampled", "a cell evaluated after a cell 1-3 rows above it (descending y)"),
+    "C14v_B": ("C14", "Caching3D checks the z cell index against the y axis' last cell", "different node counts along y and z, point in the upper z part"),
+    "C15v_A": ("C15", "group.observe() walks the scene-graph children instead of the member tuple", "members re-assigned so that a former member is dropped, then observe()"),
+    "C15v_B": ("C15", "element-wise accumulate on the deprecated spectroscopic groups writes display_progress", "SpectroscopicSightLineGroup / FibreOpticGroup with accumulate given per observer"),
+    "C16v_A": ("C16", "Polychromator bin count rounded to nearest instead of up", "range / step with a fractional part below 0.5"),
+    "C16v_B": ("C16", "CzernyTurnerSpectrometer.accommodated_spectra validated after the store", "a rejected assignment followed by any valid change"),
+    "C18v_A": ("C18", "ConstantSpectrum caches its level at the first evaluation; the range setters never reset it", "min_wavelength / max_wavelength assigned on an existing ConstantSpectrum"),
+    "C18v_B": ("C18", "GaussianBeamAxisymmetric stores stddev_waist / laser_wavelength before the model validates them", "a rejected non-positive assignment, then a read or any valid assignment"),
 }
 
 res, conf = {}, {}
